@@ -12,9 +12,9 @@ for p in props:
     if pid in cfg and not t.get('not_applicable'):
         checks.append({"property_id":pid,"quick_cmd":f"./check {pid} --tier quick","thorough_cmd":f"./check {pid} --tier thorough",
           "evidence_file":f"/verif/evidence/{pid}.json","replay_cmd_template":f"./check {pid} --replay {{path}}","engine":"govc",
-          "level_claimed":{"category":"proof","text":t.get('level_text','contract obligations discharged for all inputs'),"design_ref":t.get('design_ref','DESIGN.md §4')},
+          "level_claimed":{"category":t.get("category","proof"),"text":t.get('level_text','contract obligations discharged for all inputs'),"design_ref":t.get('design_ref','DESIGN.md §4')},
           "level_note":t.get('level_note','see evidence trusted_base'),
-          "technique":"contract-based deductive verification: WP over go/ssa + SMT (z3/cvc5)"})
+          "technique":t.get("technique","contract-based deductive verification: WP over go/ssa + SMT (z3/cvc5)")})
     else:
         na.append({"property_id":pid,"reason":t.get('not_applicable','check not built yet (work in progress; see DESIGN.md)')})
 m['checks']=checks;m['not_applicable']=na
